@@ -55,6 +55,11 @@ def rand_model(rng, ngram, alphabet, max_len):
     for length in range(ngram, max_len + 1):
         if dense or rng.random() < 0.8:
             g['ln'][rng.choice(LEVELS)].append(length - n1)
+    # a trained model always has at least one initial n-gram and one length (the constructor refuses a model without)
+    if not any(g['ip'].values()):
+        g['ip'][rng.choice(LEVELS)].append(rng.choice(prefixes))
+    if not any(g['ln'].values()):
+        g['ln'][rng.choice(LEVELS)].append(rng.randint(ngram, max_len) - n1)
     return g
 
 
@@ -116,8 +121,8 @@ def chk_enum(MarkovCracker, Optimizer, rng, tier):
 
 
 def chk_cuts(MarkovCracker, Optimizer, rng, tier, tmp):
-    for mi in range(8 if tier == 'quick' else 60):
-        g = rand_model(rng, rng.choice([2, 3]), 'ab', 4)
+    for mi in range(20 if tier == 'quick' else 120):
+        g = rand_model(rng, rng.choice([2, 3]), rng.choice(['ab', 'abc']), 4)
         for level in range(0, 8):
             full = run_level(MarkovCracker, g, level, Optimizer(max_length=4))
             for j in range(1, len(full) + 1):
